@@ -33,6 +33,20 @@
 (* caller's context) are separate nondeterministic actions.  Time is       *)
 (* abstract: `expired` becomes TRUE at some moment; the driver reads it    *)
 (* only where the code compares time.Now() with the deadline.              *)
+(*                                                                         *)
+(* The state is ONE record A; every action is a pair XxxEn / Xxx           *)
+(* (enabling condition, successor as a function) so that Gen_SchemaAgree   *)
+(* and Trace_SchemaAgree compose the same operators.                       *)
+(*   Start       the call begins (for "ddl": the statement is sent)        *)
+(*   NodeDdl     the node executes the statement and answers               *)
+(*               schema_change (or rejects it)                             *)
+(*   Check       for time.Now().Before(endDeadline)                        *)
+(*   SendPeers   SELECT * FROM system.peers on this connection             *)
+(*   AnsPeers    rows as the node has them now / failure                   *)
+(*   AnsLocal    SELECT schema_version FROM system.local: answer / failure *)
+(*               (the query is sent in the step that consumed the peers)   *)
+(*   Sleep       select { <-ctx.Done(): return ctx.Err(); <-After(200ms) } *)
+(*   Expire, Cancel, EnvStep                                               *)
 (***************************************************************************)
 EXTENDS Integers, Sequences, FiniteSets, TLC
 
@@ -46,25 +60,12 @@ CONSTANTS
                     \*       the zero uuid and counted as a version of its own (conn.go, finding X01-F1)
   Variant           \* "ok", or a deliberately wrong driver model that the model pass has to reject
 
-VARIABLES
-  kind,        \* "await": AwaitSchemaAgreement | "ddl": Exec of a schema-changing statement
-  pc,          \* idle | ddl | check | peers | local | sleep | done
-  res,         \* none | nil | disagree | ctx | ddlerr      (what the caller gets; "disagree" = the inconsistency error)
-  local,       \* schema version of the polled node
-  rows,        \* [Peers -> [kind : {"ok","invalid","nullver"}, ver : Vers]]   cluster truth as the polled node reports it
-  seen,        \* driver: versions collected in the round in progress
-  cur,         \* ghost: the round in progress as ANSWERED  [p, rows, l, lver]
-  last,        \* ghost: the last finished round
-  expired,     \* the deadline start+MaxWaitSchemaAgreement has passed
-  cancelled,   \* the caller's context is done
-  polls, fails, envs, afterCancel,  \* counters (bounds / properties)
-  lateRounds   \* ghost: rounds begun although the loop test saw the deadline passed
-
-vars == <<kind, pc, res, local, rows, seen, cur, last, expired, cancelled, polls, fails, envs, afterCancel, lateRounds>>
+VARIABLE A
+vars == <<A>>
 
 RowKinds == {"ok", "invalid", "nullver"}
-NoRound == [p |-> "none", rows |-> [x \in Peers |-> [kind |-> "invalid", ver |-> CHOOSE v \in Vers : TRUE]], l |-> "none",
-            lver |-> CHOOSE v \in Vers : TRUE]
+AnyVer == CHOOSE v \in Vers : TRUE
+NoRound == [p |-> "none", rows |-> [x \in Peers |-> [kind |-> "invalid", ver |-> AnyVer]], l |-> "none", lver |-> AnyVer]
 
 -----------------------------------------------------------------------------
 \* Property level: what one poll round shows, from the answers alone ([S1] + [S3]).
@@ -74,19 +75,29 @@ RoundComplete(r) == r.p = "ok" /\ r.l = "ok"
 RoundAgrees(r) == RoundComplete(r) /\ Cardinality(CountedVers(r)) <= 1
 
 \* [S1] nil only after a round that showed agreement
-AgreeSound == res = "nil" => RoundAgrees(last)
+AgreeSoundOf(T) == T.res = "nil" => RoundAgrees(T.last)
 \* [S1] "will wait until ... are the same": the wait ends with nil at the round that shows agreement
-AgreeComplete == RoundAgrees(last) => (pc = "done" /\ res = "nil")
+AgreeCompleteOf(T) == RoundAgrees(T.last) => (T.pc = "done" /\ T.res = "nil")
 \* [S1] the inconsistency error is for "not the same after the timeout ... elapses": never before
-ErrOnlyLate == res = "disagree" => expired
+ErrOnlyLateOf(T) == T.res = "disagree" => T.expired
 \* [S4]
-CtxOnlyCancelled == res = "ctx" => cancelled
-CancelHonoured == afterCancel <= 1
+CtxOnlyCancelledOf(T) == T.res = "ctx" => T.cancelled
+CancelHonouredOf(T) == T.afterCancel <= 1
 \* [S1] "The maximum amount of time this takes is governed by the MaxWaitSchemaAgreement setting"
-DeadlineHonoured == lateRounds = 0
+DeadlineHonouredOf(T) == T.lateRounds = 0
 \* [S2] a schema-changing statement returns after agreement was seen, after the deadline, or when its context ended
-DdlWaits == (kind = "ddl" /\ pc = "done" /\ res # "ddlerr") =>
-               (res = "nil" /\ RoundAgrees(last)) \/ (res = "disagree" /\ expired) \/ (res = "ctx" /\ cancelled)
+DdlWaitsOf(T) == (T.kind = "ddl" /\ T.pc = "done" /\ T.res # "ddlerr") =>
+                    \/ T.res = "nil" /\ RoundAgrees(T.last)
+                    \/ T.res = "disagree" /\ T.expired
+                    \/ T.res = "ctx" /\ T.cancelled
+
+AgreeSound == AgreeSoundOf(A)
+AgreeComplete == AgreeCompleteOf(A)
+ErrOnlyLate == ErrOnlyLateOf(A)
+CtxOnlyCancelled == CtxOnlyCancelledOf(A)
+CancelHonoured == CancelHonouredOf(A)
+DeadlineHonoured == DeadlineHonouredOf(A)
+DdlWaits == DdlWaitsOf(A)
 
 -----------------------------------------------------------------------------
 \* Driver model.
@@ -94,106 +105,100 @@ DriverVersOfRows(rw) ==
   {rw[p].ver : p \in {q \in Peers : rw[q].kind = "ok" \/ (Variant = "count_invalid" /\ rw[q].kind = "invalid")}}
     \cup (IF CountNullVersion /\ \E q \in Peers : rw[q].kind = "nullver" THEN {"zero-uuid"} ELSE {})
 
-Init ==
-  /\ kind \in {"await", "ddl"}
-  /\ pc = "idle" /\ res = "none"
-  /\ local \in Vers
-  /\ rows \in [Peers -> [kind : RowKinds, ver : Vers]]
-  /\ seen = {} /\ cur = NoRound /\ last = NoRound
-  /\ expired \in BOOLEAN          \* TRUE: MaxWaitSchemaAgreement <= 0
-  /\ cancelled = FALSE
-  /\ polls = 0 /\ fails = 0 /\ envs = 0 /\ afterCancel = 0 /\ lateRounds = 0
+InitState(kind, local, rows, expired) ==
+  [kind |-> kind,           \* "await": AwaitSchemaAgreement | "ddl": Exec of a schema-changing statement
+   pc |-> "idle",           \* idle | ddl | check | send | peers | local | sleep | done
+   res |-> "none",          \* none | nil | disagree | ctx | ddlerr   ("disagree" = the inconsistency error)
+   local |-> local,         \* schema version of the polled node
+   rows |-> rows,           \* [Peers -> [kind, ver]]: what the polled node reports about its peers
+   seen |-> {},             \* driver: versions collected in the round in progress
+   cur |-> NoRound,         \* ghost: the round in progress as ANSWERED
+   last |-> NoRound,        \* ghost: the last finished round
+   expired |-> expired,     \* the deadline start+MaxWaitSchemaAgreement has passed (TRUE at once: MaxWait <= 0)
+   cancelled |-> FALSE,
+   polls |-> 0, fails |-> 0, envs |-> 0, afterCancel |-> 0, lateRounds |-> 0]
 
-Finish(r) == pc' = "done" /\ res' = r
+Init == \E kind \in {"await", "ddl"}, local \in Vers, rows \in [Peers -> [kind : RowKinds, ver : Vers]], ex \in BOOLEAN :
+           A = InitState(kind, local, rows, ex)
 
-Start ==
-  /\ pc = "idle"
-  /\ pc' = IF kind = "ddl" THEN "ddl" ELSE "check"
-  /\ UNCHANGED <<kind, res, local, rows, seen, cur, last, expired, cancelled, polls, fails, envs, afterCancel, lateRounds>>
+Fin(T, r) == [T EXCEPT !.pc = "done", !.res = r]
+
+StartEn(T) == T.pc = "idle"
+Start(T) == [T EXCEPT !.pc = IF T.kind = "ddl" THEN "ddl" ELSE "check"]
 
 \* the node executes the statement: its own schema version changes at once, the peers follow later
-NodeDdlApplied ==
-  /\ pc = "ddl"
-  /\ \E v \in Vers \ {local} : local' = v
-  /\ pc' = "check"
-  /\ UNCHANGED <<kind, res, rows, seen, cur, last, expired, cancelled, polls, fails, envs, afterCancel, lateRounds>>
+NodeDdlEn(T, ans, v) == T.pc = "ddl" /\ (ans = "applied" => v \in Vers \ {T.local})
+NodeDdl(T, ans, v) == IF ans = "applied" THEN [T EXCEPT !.local = v, !.pc = "check"] ELSE Fin(T, "ddlerr")
 
-NodeDdlRejected ==
-  /\ pc = "ddl"
-  /\ Finish("ddlerr")
-  /\ UNCHANGED <<kind, local, rows, seen, cur, last, expired, cancelled, polls, fails, envs, afterCancel, lateRounds>>
+CheckEn(T) == T.pc = "check"
+Check(T) ==
+  IF T.expired /\ Variant # "no_deadline" THEN Fin(T, "disagree")
+  ELSE [T EXCEPT !.pc = "send", !.lateRounds = IF T.expired THEN @ + 1 ELSE @]
 
-\* for time.Now().Before(endDeadline)
-Check ==
-  /\ pc = "check"
-  /\ IF expired /\ Variant # "no_deadline"
-       THEN Finish("disagree")
-       ELSE pc' = "peers" /\ res' = res
-  /\ lateRounds' = IF expired /\ Variant = "no_deadline" THEN lateRounds + 1 ELSE lateRounds
-  /\ UNCHANGED <<kind, local, rows, seen, cur, last, expired, cancelled, polls, fails, envs, afterCancel>>
+SendPeersEn(T) == T.pc = "send" /\ T.polls < MaxPolls
+SendPeers(T) == [T EXCEPT !.pc = "peers", !.polls = @ + 1, !.afterCancel = IF T.cancelled THEN @ + 1 ELSE @]
 
-\* SELECT * FROM system.peers on this connection; ok = rows as the node has them now
-PollPeers(ans) ==
-  /\ pc = "peers" /\ polls < MaxPolls
-  /\ ans = "err" => (cancelled \/ fails < MaxFail)
-  /\ polls' = polls + 1
-  /\ afterCancel' = IF cancelled THEN afterCancel + 1 ELSE afterCancel
-  /\ fails' = IF ans = "err" /\ ~cancelled THEN fails + 1 ELSE fails
-  /\ cur' = [p |-> ans, rows |-> rows, l |-> "none", lver |-> local]
-  /\ IF ans = "ok"
-       THEN /\ seen' = DriverVersOfRows(rows)
-            /\ pc' = "local" /\ last' = last /\ res' = res
-       ELSE /\ seen' = {}
-            /\ last' = cur'
-            /\ IF Variant = "fail_is_agree" THEN Finish("nil") ELSE pc' = "sleep" /\ res' = res
-  /\ UNCHANGED <<kind, local, rows, expired, cancelled, envs, lateRounds>>
+AnsEn(T, ans) == ans \in {"ok", "err"} /\ (ans = "err" => (T.cancelled \/ T.fails < MaxFail))
+CountFail(T, ans) == IF ans = "err" /\ ~T.cancelled THEN T.fails + 1 ELSE T.fails
 
-\* SELECT schema_version FROM system.local
-PollLocal(ans) ==
-  /\ pc = "local"
-  /\ ans = "err" => (cancelled \/ fails < MaxFail)
-  /\ fails' = IF ans = "err" /\ ~cancelled THEN fails + 1 ELSE fails
-  /\ LET r == [cur EXCEPT !.l = ans, !.lver = local]
-         s == IF ans = "ok" THEN seen \cup {local} ELSE seen
-     IN /\ cur' = r /\ last' = r /\ seen' = s
-        /\ IF ans = "ok" /\ Cardinality(s) <= 1 THEN Finish("nil")
-           ELSE IF ans = "err" /\ Variant = "fail_is_agree" THEN Finish("nil")
-           ELSE IF Variant = "err_early" THEN Finish("disagree")
-           ELSE pc' = "sleep" /\ res' = res
-  /\ UNCHANGED <<kind, local, rows, expired, cancelled, polls, envs, afterCancel, lateRounds>>
+AnsPeersEn(T, ans) == T.pc = "peers" /\ AnsEn(T, ans)
+AnsPeers(T, ans) ==
+  LET r == [p |-> ans, rows |-> T.rows, l |-> "none", lver |-> T.local]
+      T1 == [T EXCEPT !.cur = r, !.fails = CountFail(T, ans)] IN
+  IF ans = "ok" THEN [T1 EXCEPT !.seen = DriverVersOfRows(T.rows), !.pc = "local"]
+  ELSE LET T2 == [T1 EXCEPT !.seen = {}, !.last = r] IN
+       IF Variant = "fail_is_agree" THEN Fin(T2, "nil") ELSE [T2 EXCEPT !.pc = "sleep"]
 
-\* select { case <-ctx.Done(): return ctx.Err(); case <-time.After(200ms): }
-Sleep ==
-  /\ pc = "sleep"
-  /\ IF cancelled /\ Variant # "ignore_ctx" THEN Finish("ctx") ELSE pc' = "check" /\ res' = res
-  /\ UNCHANGED <<kind, local, rows, seen, cur, last, expired, cancelled, polls, fails, envs, afterCancel, lateRounds>>
+AnsLocalEn(T, ans) == T.pc = "local" /\ AnsEn(T, ans)
+AnsLocal(T, ans) ==
+  LET r == [T.cur EXCEPT !.l = ans, !.lver = T.local]
+      s == IF ans = "ok" THEN T.seen \cup {T.local} ELSE T.seen
+      T1 == [T EXCEPT !.cur = r, !.last = r, !.seen = s, !.fails = CountFail(T, ans)] IN
+  IF ans = "ok" /\ Cardinality(s) <= 1 THEN Fin(T1, "nil")
+  ELSE IF ans = "err" /\ Variant = "fail_is_agree" THEN Fin(T1, "nil")
+  ELSE IF Variant = "err_early" THEN Fin(T1, "disagree")
+  ELSE [T1 EXCEPT !.pc = "sleep"]
+
+SleepEn(T) == T.pc = "sleep"
+Sleep(T) == IF T.cancelled /\ Variant # "ignore_ctx" THEN Fin(T, "ctx") ELSE [T EXCEPT !.pc = "check"]
 
 \* ---- environment
-Expire == /\ ~expired /\ pc \notin {"idle", "done"} /\ expired' = TRUE
-          /\ UNCHANGED <<kind, pc, res, local, rows, seen, cur, last, cancelled, polls, fails, envs, afterCancel, lateRounds>>
-Cancel == /\ ~cancelled /\ pc \notin {"idle", "done"} /\ cancelled' = TRUE
-          /\ UNCHANGED <<kind, pc, res, local, rows, seen, cur, last, expired, polls, fails, envs, afterCancel, lateRounds>>
+Running(T) == T.pc \notin {"idle", "done"}
+ExpireEn(T) == ~T.expired /\ Running(T)
+Expire(T) == [T EXCEPT !.expired = TRUE]
+CancelEn(T) == ~T.cancelled /\ Running(T)
+Cancel(T) == [T EXCEPT !.cancelled = TRUE]
 \* a peer learns the polled node's version / a row becomes usable or unusable / somebody else changes the schema
-EnvStep ==
-  /\ envs < MaxEnv /\ pc \notin {"idle", "done"}
-  /\ envs' = envs + 1
-  /\ \/ \E p \in Peers : rows' = [rows EXCEPT ![p].ver = local] /\ rows' # rows /\ local' = local
-     \/ \E p \in Peers, k \in RowKinds : rows' = [rows EXCEPT ![p].kind = k] /\ rows' # rows /\ local' = local
-     \/ \E v \in Vers \ {local} : local' = v /\ rows' = rows
-  /\ UNCHANGED <<kind, pc, res, seen, cur, last, expired, cancelled, polls, fails, afterCancel, lateRounds>>
+EnvEn(T, rows, local) == T.envs < MaxEnv /\ Running(T) /\ <<rows, local>> # <<T.rows, T.local>>
+Env(T, rows, local) == [T EXCEPT !.rows = rows, !.local = local, !.envs = @ + 1]
+EnvChoices(T) ==
+  {<<[T.rows EXCEPT ![p].ver = T.local], T.local>> : p \in Peers}
+  \cup {<<[T.rows EXCEPT ![p].kind = k], T.local>> : p \in Peers, k \in RowKinds}
+  \cup {<<T.rows, v>> : v \in Vers}
 
-Driver == Start \/ Check \/ (\E a \in {"ok", "err"} : PollPeers(a) \/ PollLocal(a)) \/ Sleep
-Node == NodeDdlApplied \/ NodeDdlRejected
-Next == Driver \/ Node \/ Expire \/ Cancel \/ EnvStep
+Driver ==
+  \/ StartEn(A) /\ A' = Start(A)
+  \/ CheckEn(A) /\ A' = Check(A)
+  \/ SendPeersEn(A) /\ A' = SendPeers(A)
+  \/ SleepEn(A) /\ A' = Sleep(A)
+Node ==
+  \/ \E ans \in {"applied", "rejected"}, v \in Vers : NodeDdlEn(A, ans, v) /\ A' = NodeDdl(A, ans, v)
+  \/ \E ans \in {"ok", "err"} : \/ AnsPeersEn(A, ans) /\ A' = AnsPeers(A, ans)
+                                \/ AnsLocalEn(A, ans) /\ A' = AnsLocal(A, ans)
+Environment ==
+  \/ ExpireEn(A) /\ A' = Expire(A)
+  \/ CancelEn(A) /\ A' = Cancel(A)
+  \/ \E c \in EnvChoices(A) : EnvEn(A, c[1], c[2]) /\ A' = Env(A, c[1], c[2])
 
+Next == Driver \/ Node \/ Environment
 Spec == Init /\ [][Next]_vars
 \* liveness: the wait ends ([S1] "The maximum amount of time this takes is governed by MaxWaitSchemaAgreement").
 \* The poll bound is an exploration bound, not part of the system: runs that hit it are not judged.
-FairSpec == Spec /\ WF_vars(Driver) /\ WF_vars(Node) /\ WF_vars(Expire)
-Terminates == <>(pc = "done" \/ polls = MaxPolls)
+FairSpec == Spec /\ WF_vars(Driver) /\ WF_vars(Node) /\ WF_vars(ExpireEn(A) /\ A' = Expire(A))
+Terminates == <>(A.pc = "done" \/ A.polls = MaxPolls)
 
 TypeOK ==
-  /\ pc \in {"idle", "ddl", "check", "peers", "local", "sleep", "done"}
-  /\ res \in {"none", "nil", "disagree", "ctx", "ddlerr"}
-  /\ (pc = "done") = (res # "none")
+  /\ A.pc \in {"idle", "ddl", "check", "send", "peers", "local", "sleep", "done"}
+  /\ A.res \in {"none", "nil", "disagree", "ctx", "ddlerr"}
+  /\ (A.pc = "done") = (A.res # "none")
 =============================================================================
